@@ -241,8 +241,7 @@ func (h *hEnv) execStep(step bson.D) (res bson.D, perr error) {
 		if skip > 0 {
 			fo.SetSkip(int64(skip))
 		}
-		var d bson.D
-		err := h.coll(ns).FindOne(ctx, rec.argD(freshD(asD(getD(step, "filter")))), fo).Decode(&d)
+		d, err := h.decodeSingle(h.coll(ns).FindOne(ctx, rec.argD(freshD(asD(getD(step, "filter")))), fo))
 		return finish(singleResult(d, err, &returned))
 	case "count":
 		co := options.Count()
@@ -300,8 +299,7 @@ func (h *hEnv) execStep(step bson.D) (res bson.D, perr error) {
 		if proj != nil {
 			fo.SetProjection(rec.argD(freshD(proj)))
 		}
-		var d bson.D
-		err := h.coll(ns).FindOneAndDelete(ctx, rec.argD(freshD(asD(getD(step, "filter")))), fo).Decode(&d)
+		d, err := h.decodeSingle(h.coll(ns).FindOneAndDelete(ctx, rec.argD(freshD(asD(getD(step, "filter")))), fo))
 		return finish(singleResult(d, err, &returned))
 	case "findOneAndReplace":
 		srt, proj, _, _ := findOpts()
@@ -315,8 +313,7 @@ func (h *hEnv) execStep(step bson.D) (res bson.D, perr error) {
 		if proj != nil {
 			fo.SetProjection(rec.argD(freshD(proj)))
 		}
-		var d bson.D
-		err := h.coll(ns).FindOneAndReplace(ctx, rec.argD(freshD(asD(getD(step, "filter")))), rec.argD(freshD(asD(getD(step, "repl")))), fo).Decode(&d)
+		d, err := h.decodeSingle(h.coll(ns).FindOneAndReplace(ctx, rec.argD(freshD(asD(getD(step, "filter")))), rec.argD(freshD(asD(getD(step, "repl")))), fo))
 		return finish(singleResult(d, err, &returned))
 	case "findOneAndUpdate":
 		srt, proj, _, _ := findOpts()
@@ -333,8 +330,7 @@ func (h *hEnv) execStep(step bson.D) (res bson.D, perr error) {
 		if af := asA(getD(step, "arrayFilters")); len(af) > 0 {
 			fo.SetArrayFilters(options.ArrayFilters{Filters: toIfaces(rec.arg(fresh(af)).(bson.A))})
 		}
-		var d bson.D
-		err := h.coll(ns).FindOneAndUpdate(ctx, rec.argD(freshD(asD(getD(step, "filter")))), rec.argD(freshD(asD(getD(step, "update")))), fo).Decode(&d)
+		d, err := h.decodeSingle(h.coll(ns).FindOneAndUpdate(ctx, rec.argD(freshD(asD(getD(step, "filter")))), rec.argD(freshD(asD(getD(step, "update")))), fo))
 		return finish(singleResult(d, err, &returned))
 	case "bulkWrite":
 		var models []mongo.WriteModel
@@ -456,6 +452,42 @@ func (h *hEnv) execStep(step bson.D) (res bson.D, perr error) {
 	}
 	return nil, fmt.Errorf("harness: unknown step op %q", op)
 }
+
+// decodeSingle reads a single result the way a hostile but legal caller may:
+// it takes the raw bytes, overwrites them, decodes, and takes the raw bytes
+// again. All views must agree (values handed back may be modified without
+// effect on the results of other calls).
+func (h *hEnv) decodeSingle(sr lungo.ISingleResult) (bson.D, error) {
+	var d bson.D
+	if !h.scribble {
+		return d, firstErr(sr.Decode(&d), &d)
+	}
+	raw1, rerr := sr.DecodeBytes()
+	var keep []byte
+	if rerr == nil {
+		keep = append([]byte{}, raw1...)
+		for i := range raw1 {
+			raw1[i] = 0
+		}
+	}
+	err := sr.Decode(&d)
+	if (err == nil) != (rerr == nil) {
+		h.argViolation = fmt.Sprintf("SingleResult.DecodeBytes and Decode disagree after the returned bytes were overwritten: %v / %v", rerr, err)
+		return d, err
+	}
+	if err == nil {
+		if string(marshal(d)) != string(keep) {
+			h.argViolation = fmt.Sprintf("SingleResult.Decode returns %s after the bytes returned by DecodeBytes were overwritten (they held %x)", show(d), keep)
+		}
+		raw2, err2 := sr.Raw()
+		if err2 != nil || string(raw2) != string(keep) {
+			h.argViolation = fmt.Sprintf("SingleResult.Raw changed after the bytes returned earlier were overwritten: %x vs %x", raw2, keep)
+		}
+	}
+	return d, err
+}
+
+func firstErr(err error, _ *bson.D) error { return err }
 
 func indexModel(m bson.D, rec *callRecord) mongo.IndexModel {
 	io := options.Index()
